@@ -6,6 +6,7 @@ import (
 	"fmt"
 	"go/token"
 	"go/types"
+	"net"
 	"reflect"
 	"regexp"
 	"time"
@@ -483,4 +484,27 @@ func init() {
 	reg("(time.Time).Minute", func(fr *frame, args []value) value { return toGoTime(args[0]).Minute() })
 	reg("(time.Time).Second", func(fr *frame, args []value) value { return toGoTime(args[0]).Second() })
 	reg("(time.Time).YearDay", func(fr *frame, args []value) value { return toGoTime(args[0]).YearDay() })
+}
+
+// ---- net.ParseIP / net.ParseCIDR: parsed by the host on concrete text, results imported as plain
+// data (net.IP = []byte, *net.IPNet = &struct{IP, Mask}) so that IPNet.Contains is interpreted.
+
+func init() {
+	ipVal := func(ip net.IP) value {
+		if ip == nil {
+			return []value(nil)
+		}
+		return bytesToValues(ip)
+	}
+	reg("net.ParseIP", func(fr *frame, args []value) value {
+		return ipVal(net.ParseIP(concStr(fr, args[0], "net.ParseIP")))
+	})
+	reg("net.ParseCIDR", func(fr *frame, args []value) value {
+		ip, n, err := net.ParseCIDR(concStr(fr, args[0], "net.ParseCIDR"))
+		if err != nil {
+			return tuple{[]value(nil), (*value)(nil), fr.newError(err.Error())}
+		}
+		var cell value = structure{ipVal(n.IP), bytesToValues(n.Mask)}
+		return tuple{ipVal(ip), &cell, iface{}}
+	})
 }
